@@ -226,3 +226,46 @@ CHECKS["C15"] = dict(
     level_text="exploration with an exhaustive core: all ownership histories up to length 4/5 over a 30-operation alphabet; handle-bearing values, returned references and corruptions are sampled and each case decided exactly from the call logs.",
     level_note="handle-capable readers/writers shipped with libnop do not exist; the documented PushHandle/GetHandle interface is implemented by the harness' LogWriter/LogReader",
     assumptions=[], exhaustive_counter="c15_exhaustive_len2_histories_total")
+
+
+# ------------------------------------------------------------------ io engine (C16, C17)
+def gen_io(prop, tier, seed):
+    import cxgen
+    s = seed if tier == "thorough" else 0
+    d = os.path.join(BUILD, "gen", "io-%s-%d" % (tier, s))
+    cxgen.generate(d, s, 260 if tier == "thorough" else 140, 400 if tier == "thorough" else 200)
+    return d, []
+
+
+ENGINE_KIND["io"] = ("C++ harness (ASan+UBSan): executable byte-source/byte-sink and budget models run in lock-step with the shipped readers/writers over "
+                     "bounded-exhaustive and random primitive-call sequences; compile-time serializations emitted by a generator")
+_io = dict(engine="io", flavour="asan", gen=gen_io, sources=["engines/io/main.cpp"])
+
+CHECKS["C16"] = dict(
+    _io, level="exploration",
+    rule=("history = sequence of Ensure/Read/ReadBlock(w=1,2,4,8)/Skip/ReadPadding (resp. Prepare/Write/WriteBlock/Skip/WritePadding) calls on BoundedReader<LogReader> / BoundedWriter<LogWriter>, sizes drawn from "
+          "{0, 1, rem-1, rem, rem+1, 2^32, 2^63, 2^64-1-k, small} relative to the remaining budget at execution time; configurations = limits {0,1,2,7,8,9,64} x wrapped reader/writer longer or shorter than the "
+          "limit x wrapped call #0/#1/#2 failing with StreamError/IOError/ProtocolError x nested BoundedReader<BoundedReader<>> with the tighter limit inside or outside. Oracle = 25-line budget model + a twin of the "
+          "wrapped reader/writer receiving the calls directly: status, delivered/written bytes, wrapped position, wrapped call log (a crossing call must not reach it), size()/empty()/capacity(), padding position and value. "
+          "Exhaustive: all sequences of length <= 3 (quick) / 4 (thorough) over the 40-call alphabet in every configuration; random to length 12."),
+    floor={"quick": 500000, "thorough": 5000000},
+    require_counters=["c16_reader_calls", "c16_writer_calls", "c16_reader_calls_crossing_the_limit", "c16_writer_calls_crossing_the_limit", "c16_reader_calls_with_huge_sizes", "c16_writer_calls_with_huge_sizes"],
+    technique="lock-step executable model + call-log oracle over bounded-exhaustive and random primitive-call histories, under ASan/UBSan",
+    level_text="exploration with an exhaustive core: every call sequence up to length 3/4 over a 40-call relative-size alphabet in 49 reader and 35 writer configurations is decided exactly against the budget model; longer sequences are sampled.",
+    level_note="the wrapped reader/writer is the harness' LogReader/LogWriter (documented interface, records every call, injectable faults)",
+    assumptions=[], exhaustive_counter="c16_reader_calls")
+
+CHECKS["C17"] = dict(
+    _io, level="exploration",
+    rule=("history = sequence of Ensure/Read/ReadBlock(w=1,2,4,8; counts 0,1,rem,rem+1,small)/Skip calls over sources of 0..64 bytes on BufferReader, PedanticBufferReader, StreamReader over stringstream and over a "
+          "non-seekable chunked streambuf, FdReader over memfd and pipe (Skip-free sequences), BoundedReader over each (limit beyond and inside the data); and Prepare/Write/WriteBlock/Skip sequences on BufferWriter "
+          "(kept within capacity), PedanticBufferWriter, ConstexprBufferWriter, StreamWriter, FdWriter, BoundedWriter over each with capacities 0..64. Oracle = array+position / vector+capacity model: same bytes in the "
+          "same order, failure at the same call with an allowed category, Ensure/Prepare exact on bounded kinds, checked writers refuse exactly the calls beyond capacity, byte stream equal after every call. "
+          "Compile time: generated literal values (structures, BIN/ARY arrays, tables, 64-bit fields with distinct bytes) serialized in constant expressions are compared with four run-time writers, and generated "
+          "constexpr Prepare/Write/Skip sequences on ConstexprBufferWriter with the model and with their own run-time evaluation. Exhaustive to length 2 (quick) / 3 (thorough), random to length 10."),
+    floor={"quick": 100000, "thorough": 1000000},
+    require_counters=["c17_reader_calls", "c17_writer_calls", "c17_constexpr_vs_runtime_comparisons", "c17_constexpr_sequences", "c17_reader_FdReader", "c17_writer_ConstexprBufferWriter", "c17_reader_StreamReader<chunked non-seekable>"],
+    technique="differential execution of every shipped reader/writer against an executable byte-source/byte-sink model; compile-time constants emitted into the binary",
+    level_text="exploration with an exhaustive core: all call sequences up to length 2/3 over the relative-size alphabet on every reader and writer kind and every source length / capacity in the grid; longer sequences and compile-time values are sampled.",
+    level_note="equivalence is required up to and including the first failing call, as the property states; the unchecked BufferWriter is only driven within its capacity",
+    assumptions=[], exhaustive_counter="c17_reader_calls")
